@@ -36,6 +36,25 @@ func scratchRoot() string {
 	return os.TempDir()
 }
 
+// uni draws 0..n-1 from fair coins (harness/c12/gen.go): rapid's integer generators favour small values, which makes the
+// few cases a shard evaluates of these expensive entries nearly identical.
+func uni(t *rapid.T, n int, label string) int {
+	k := 3
+	for (1 << uint(k-3)) < n {
+		k++
+	}
+	v := 0
+	for i := 0; i < k; i++ {
+		v <<= 1
+		if rapid.Bool().Draw(t, label) {
+			v |= 1
+		}
+	}
+	return v % n
+}
+
+func pick[T any](t *rapid.T, xs []T, label string) T { return xs[uni(t, len(xs), label)] }
+
 // ---------------------------------------------------------------------------
 // neuralbond
 
@@ -76,19 +95,19 @@ var nbWidths = []int{1, 2, 3, 4, 5, 7, 8, 9}
 
 func genNBCase(t *rapid.T) NBCase {
 	var c NBCase
-	c.Mode = rapid.SampledFrom([]string{"romcode", "fragment", "fragment"}).Draw(t, "mode")
-	c.IOMode = rapid.SampledFrom([]string{"async", "sync"}).Draw(t, "iomode")
+	c.Mode = pick(t, []string{"romcode", "fragment", "fragment"}, "mode")
+	c.IOMode = pick(t, []string{"async", "sync"}, "iomode")
 	c.DataType, c.RegSize = "float32", 32
-	if rapid.IntRange(0, 3).Draw(t, "f16") == 0 {
+	if uni(t, 4, "f16") == 0 {
 		c.DataType, c.RegSize = "float16", 16
 	}
-	hidden := rapid.IntRange(1, 2).Draw(t, "hidden")
+	hidden := 1 + uni(t, 2, "hidden")
 	var sizes []int
-	sizes = append(sizes, rapid.SampledFrom(nbWidths).Draw(t, "inputs"))
+	sizes = append(sizes, pick(t, nbWidths, "inputs"))
 	for i := 0; i < hidden; i++ {
-		w := rapid.SampledFrom(nbWidths[:6]).Draw(t, "width")
+		w := pick(t, nbWidths[:6], "width")
 		if i > 0 && sizes[0]*sizes[1] > 20 {
-			w = rapid.IntRange(1, 2).Draw(t, "narrow") // keep the number of weights (one CP each) bounded
+			w = 1 + uni(t, 2, "narrow") // keep the number of weights (one CP each) bounded
 		}
 		sizes = append(sizes, w)
 	}
@@ -99,12 +118,12 @@ func genNBCase(t *rapid.T) NBCase {
 	}
 	full := rapid.Bool().Draw(t, "full")
 	for l := 1; l < len(sizes); l++ {
-		typ := rapid.SampledFrom([]string{"linear", "linear", "summation", "softmax"}).Draw(t, "ltype")
+		typ := pick(t, []string{"linear", "linear", "summation", "softmax"}, "ltype")
 		for p := 0; p < sizes[l]; p++ {
 			c.Net.Nodes = append(c.Net.Nodes, NBNode{Layer: l, Pos: p, Type: typ, Bias: w("bias")})
 			var kept []int
 			for q := 0; q < sizes[l-1]; q++ {
-				if full || rapid.IntRange(0, 3).Draw(t, "keep") != 0 {
+				if full || uni(t, 4, "keep") != 0 {
 					kept = append(kept, q)
 				}
 			}
@@ -124,7 +143,7 @@ func genNBCase(t *rapid.T) NBCase {
 	if c.Mode == "fragment" {
 		used := map[string]bool{}
 		for _, wg := range c.Net.Weights {
-			if rapid.IntRange(0, 4).Draw(t, "collapse") != 0 {
+			if uni(t, 5, "collapse") != 0 {
 				continue
 			}
 			wn := fmt.Sprintf("weightfi_%d_%d__%d_%d", wg.Layer-1, wg.PosPrevLayer, wg.Layer, wg.PosCurrLayer)
@@ -296,12 +315,12 @@ func genQCase(t *rapid.T) QCase {
 	if os.Getenv("VERIF_TIER") == "thorough" {
 		sizes = []int{1, 1, 2, 2, 2, 3}
 	}
-	c.Qubits = rapid.SampledFrom(sizes).Draw(t, "qubits")
+	c.Qubits = pick(t, sizes, "qubits")
 	c.Zero = rapid.Bool().Draw(t, "zero")
-	c.Flavor = rapid.SampledFrom([]string{"seq_hardcoded_real", "seq_hardcoded_complex", "seq_hardcoded_addtree_complex"}).Draw(t, "flavor")
+	c.Flavor = pick(t, []string{"seq_hardcoded_real", "seq_hardcoded_complex", "seq_hardcoded_addtree_complex"}, "flavor")
 	real := c.Flavor == "seq_hardcoded_real"
 	// the number of gates is the length of every data section and a loop bound in the code: 2^k-1, 2^k, 2^k+1
-	n := rapid.SampledFrom([]int{1, 2, 3, 4, 5, 7, 8, 9}).Draw(t, "ngates")
+	n := pick(t, []int{1, 2, 3, 4, 5, 7, 8, 9}, "ngates")
 	for i := 0; i < n; i++ {
 		var g QGate
 		pool := append([]string{}, realGates1...)
@@ -312,12 +331,12 @@ func genQCase(t *rapid.T) QCase {
 			pool = append(pool, gates2...)
 			pool = append(pool, gates2...)
 		}
-		g.Op = rapid.SampledFrom(pool).Draw(t, "op")
-		a := rapid.IntRange(0, c.Qubits-1).Draw(t, "qa")
+		g.Op = pick(t, pool, "op")
+		a := uni(t, c.Qubits, "qa")
 		g.Q = []int{a}
 		switch g.Op {
 		case "cx", "cz", "swap":
-			b := rapid.IntRange(0, c.Qubits-2).Draw(t, "qb")
+			b := uni(t, c.Qubits-1, "qb")
 			if b >= a {
 				b++
 			}
